@@ -34,7 +34,7 @@ def boot(kernel=True, log_file=None):
         from sim import kernel as km
         km.install()
     if log_file:
-        logging.basicConfig(filename=log_file, level=14,
+        logging.basicConfig(filename=log_file, level=int(os.environ.get('VERIF_LOG_LEVEL', '14')),
                             format='%(created).6f %(name)s %(threadName)s: %(message)s')
     else:
         logging.disable(logging.CRITICAL)
